@@ -17,10 +17,25 @@ from pyvc import core
 from pyvc.core import Unsupported
 from pyvc.sym import SymBytes, SymInt, SymReader, is_sym, mk_int, zint
 
-ULEN = z3.Function("uleb_len", z3.IntSort(), z3.IntSort())
-UARR = z3.Function("uleb_bytes", z3.IntSort(), z3.ArraySort(z3.IntSort(), z3.IntSort()))
-SLEN = z3.Function("sleb_len", z3.IntSort(), z3.IntSort())
-SARR = z3.Function("sleb_bytes", z3.IntSort(), z3.ArraySort(z3.IntSort(), z3.IntSort()))
+# The standard's LEB128 (DWARF 7.6) as recursive definitions (z3 define-fun-rec; unfolded on demand, no axioms):
+#   ULEB(n) = [n mod 128]            if n < 128            else [n mod 128 + 128] ++ ULEB(n div 128)
+#   SLEB(n) = [n mod 128]            if last(n)            else [n mod 128 + 128] ++ SLEB(n div 128)
+#   last(n) = (n div 128 = 0 and n mod 128 < 64) or (n div 128 = -1 and n mod 128 >= 64)
+_n, _j = z3.Ints("n j")
+ULEN = z3.RecFunction("uleb_len", z3.IntSort(), z3.IntSort())
+UBYTE = z3.RecFunction("uleb_byte", z3.IntSort(), z3.IntSort(), z3.IntSort())
+SLEN = z3.RecFunction("sleb_len", z3.IntSort(), z3.IntSort())
+SBYTE = z3.RecFunction("sleb_byte", z3.IntSort(), z3.IntSort(), z3.IntSort())
+z3.RecAddDefinition(ULEN, [_n], z3.If(_n < 128, 1, 1 + ULEN(_n / 128)))
+z3.RecAddDefinition(UBYTE, [_n, _j], z3.If(_j <= 0, z3.If(_n < 128, _n % 128, _n % 128 + 128), UBYTE(_n / 128, _j - 1)))
+
+
+def _slast(n):
+    return z3.Or(z3.And(n / 128 == 0, n % 128 < 64), z3.And(n / 128 == -1, n % 128 >= 64))
+
+
+z3.RecAddDefinition(SLEN, [_n], z3.If(_slast(_n), 1, 1 + SLEN(_n / 128)))
+z3.RecAddDefinition(SBYTE, [_n, _j], z3.If(_j <= 0, z3.If(_slast(_n), _n % 128, _n % 128 + 128), SBYTE(_n / 128, _j - 1)))
 
 _REAL = {"u.encode": leb128._U.encode, "i.encode": leb128._I.encode,
          "u.decode_reader": leb128._U.decode_reader, "i.decode_reader": leb128._I.decode_reader}
@@ -31,9 +46,10 @@ CALLS = {"u.encode": 0, "i.encode": 0, "u.decode_reader": 0, "i.decode_reader": 
 def enc_chunk(codec, v):
     """the rope for codec(v) (shared by stubs and by the independent spec)"""
     t = zint(v)
+    k = z3.FreshInt("k")
     if codec == "uleb":
-        return SymBytes.encoded(("uleb", v), mk_int(ULEN(t)), UARR(t))
-    return SymBytes.encoded(("sleb", v), mk_int(SLEN(t)), SARR(t))
+        return SymBytes.encoded(("uleb", v), mk_int(ULEN(t)), z3.Lambda([k], UBYTE(t, k)))
+    return SymBytes.encoded(("sleb", v), mk_int(SLEN(t)), z3.Lambda([k], SBYTE(t, k)))
 
 
 def u_encode(i):
